@@ -259,6 +259,7 @@ impl Hist {
     pub fn new_fut(&mut self) -> u32 {
         let id = self.w.new_kid(false);
         let r = &mut self.rng;
+        let mut mutual = false;
         let mut ks = self.w.kids.borrow_mut();
         let k = &mut ks[id as usize];
         match r.weighted(&[25, 45, 18, 4, 8]) {
@@ -269,6 +270,7 @@ impl Hist {
             _ => {
                 if id > 0 {
                     k.wake_other = Some(r.below(id as usize) as u32);
+                    mutual = r.chance(1, 3);
                 }
             }
         }
@@ -285,6 +287,15 @@ impl Hist {
             k.fail = r.chance(1, 5);
         }
         let nest = matches!(self.kind, Kind::Fub | Kind::Fu | Kind::Fob | Kind::Fo | Kind::JoinAll) && !self.w.plain_join.get() && r.chance(1, 12);
+        if mutual {
+            // a pair that wake each other whenever they are polled (ping-pong, never themselves)
+            if let Some(o) = k.wake_other {
+                let other = &mut ks[o as usize];
+                if other.nested.is_empty() && other.state != KState::Done && other.drops == 0 && other.parent.is_none() {
+                    other.wake_other = Some(id);
+                }
+            }
+        }
         drop(ks);
         if nest {
             // a nested child: join_all over 1..4 grandchildren
@@ -905,6 +916,17 @@ impl Hist {
 
     fn on_done(&mut self) {
         let w = self.w.clone();
+        if self.kind.is_stream() {
+            // a stream that has just said "no more items" cannot promise more items
+            if let Some(s) = self.subj.as_ref() {
+                let o = self.with_ctx(Ctx::InOther, || s.obs());
+                if let Some((lo, _)) = o.hint {
+                    if lo > 0 {
+                        w.violation("C17", "lower_bound_after_end", format!("the stream returned None and reports size_hint().0 = {lo} ({})", self.desc));
+                    }
+                }
+            }
+        }
         if self.kind.is_merge() {
             // sources that ended are dropped by the merge; remove them from the model
             self.prune_ended_sources();
